@@ -478,7 +478,7 @@ func e4OracleC08(r *e4Result) string {
 		seq     int64
 		filters []string
 	}
-	var acks []ackAt // SUBACKs known to have been received, by the seq from which that is known
+	var acks []ackAt                   // SUBACKs known to have been received, by the seq from which that is known
 	subByID := map[string]*refPacket{} // "conn/id" -> SUBSCRIBE packet
 	for i, e := range r.Log {
 		if e4Emitted(e) && e.Pkt.Type == rtSubscribe {
